@@ -4,7 +4,7 @@
 # the demonstration fails with it and passes without it. Writes /tmp/mut-out/<id>/<x>/confirm.log
 ID=$1; X=$2
 SRC=/tmp/mut-out/$ID/$X
-WT=/tmp/verify-wt
+WT=${WT:-/tmp/verify-wt}
 LOG=$SRC/confirm.log
 export CARGO_NET_OFFLINE=true
 [ -d $WT ] || git -C /repo worktree add --detach $WT HEAD >/dev/null 2>&1
